@@ -3,19 +3,33 @@ import PypyrModel.Cmd
 
 namespace Pypyr.Cmd
 
-theorem stops_false_iff (p : Proc) : p.stops = false ↔ p.spawn = none ∧ p.code = 0 := by
-  cases h : p.spawn <;> simp [Proc.stops, h]
+theorem halts_false_iff (dec : Bool) (p : Proc) :
+    p.halts dec = false ↔ p.code = 0 ∧ (dec && p.decodeFails) = false := by
+  simp [Proc.halts]
 
-theorem stops_true_iff (p : Proc) : p.stops = true ↔ p.spawn ≠ none ∨ p.code ≠ 0 := by
-  cases h : p.spawn <;> simp [Proc.stops, h]
+theorem stops_false_iff (dec : Bool) (p : Proc) :
+    p.stops dec = false ↔ p.spawn = none ∧ p.code = 0 ∧ (dec && p.decodeFails) = false := by
+  cases h : p.spawn <;> simp [Proc.stops, Proc.halts, h]
+
+theorem stops_true_iff (dec : Bool) (p : Proc) :
+    p.stops dec = true ↔ p.spawn ≠ none ∨ p.code ≠ 0 ∨ (dec && p.decodeFails) = true := by
+  cases h : p.spawn <;> simp [Proc.stops, Proc.halts, h]
 
 theorem ran_iff (p : Proc) : p.ran = true ↔ p.spawn = none := by
   cases h : p.spawn <;> simp [Proc.ran, h]
 
-theorem ran_of_not_stops {p : Proc} (h : p.stops = false) : p.ran = true :=
-  (ran_iff p).mpr ((stops_false_iff p).mp h).1
+theorem ran_of_not_stops {dec : Bool} {p : Proc} (h : p.stops dec = false) : p.ran = true :=
+  (ran_iff p).mpr ((stops_false_iff dec p).mp h).1
 
-def declsOfCmd (c : SCommand) : List Decl := c.run.map (fun p => ⟨p, c.save, c.text⟩)
+theorem Decl.stops_false_iff (d : Decl) :
+    d.stops = false ↔ d.proc.spawn = none ∧ d.proc.code = 0 ∧ d.undec = false :=
+  Pypyr.Cmd.stops_false_iff d.dec d.proc
+
+theorem Decl.stops_true_iff (d : Decl) :
+    d.stops = true ↔ d.proc.spawn ≠ none ∨ d.proc.code ≠ 0 ∨ d.undec = true :=
+  Pypyr.Cmd.stops_true_iff d.dec d.proc
+
+def declsOfCmd (c : SCommand) : List Decl := c.run.map (fun p => ⟨p, c.save, c.text, c.enc⟩)
 
 theorem declsOf_cons (c : SCommand) (cs : List SCommand) :
     declsOf (c :: cs) = declsOfCmd c ++ declsOf cs := rfl
@@ -23,19 +37,19 @@ theorem declsOf_cons (c : SCommand) (cs : List SCommand) :
 /-- Error of the first declaration that `stops`. -/
 def firstFailD : List Decl → Option CmdErr
   | [] => none
-  | d :: ds => if d.proc.stops then some d.proc.error else firstFailD ds
+  | d :: ds => if d.stops then some d.error else firstFailD ds
 
-/-- One result per declaration with `save` whose process existed. -/
+/-- One result per declaration with `save` whose process existed and whose output could be decoded. -/
 def resultsOfD (ds : List Decl) : List Result :=
-  (ds.filter (fun d => d.save && d.proc.ran)).map (fun d => mkResultSync d.text d.proc)
+  (ds.filter (fun d => d.save && d.proc.ran && !d.undec)).map (fun d => mkResultSync d.text d.enc d.proc)
 
 theorem resultsOfD_append (a b : List Decl) : resultsOfD (a ++ b) = resultsOfD a ++ resultsOfD b := by
   simp [resultsOfD]
 
 /-- Closed form of the inner loop, on the declarations of one command. -/
-theorem runProcs_closed (save text : Bool) (ps : List Proc) :
-    let ds := ps.map (fun p => (⟨p, save, text⟩ : Decl))
-    runProcs save text ps =
+theorem runProcs_closed (save text enc : Bool) (ps : List Proc) :
+    let ds := ps.map (fun p => (⟨p, save, text, enc⟩ : Decl))
+    runProcs save text enc ps =
       { started := (ranD ds).map (·.proc.id),
         results := resultsOfD (takeThroughD ds),
         err := firstFailD ds } := by
@@ -46,15 +60,27 @@ theorem runProcs_closed (save text : Bool) (ps : List Proc) :
     unfold runProcs
     simp only [ranD, takeThroughD, firstFailD]
     cases hsp : p.spawn with
-    | some k => simp [Proc.stops, Proc.ran, Proc.error, hsp, resultsOfD]
+    | some k => simp [Decl.stops, Decl.error, Proc.stops, Proc.ran, Proc.error, hsp, resultsOfD]
     | none =>
-      by_cases h : p.code ≠ 0
-      · cases save <;> simp [Proc.stops, Proc.ran, Proc.error, hsp, h, resultsOfD]
-      · have hz : p.code = 0 := by omega
-        simp only [ranD] at ih
-        simp only [h, if_false]
-        rw [ih]
-        cases save <;> simp [Proc.stops, Proc.ran, hsp, hz, resultsOfD]
+      by_cases hu : (syncDec save text enc && p.decodeFails) = true
+      · have hu2 := hu
+        simp only [Bool.and_eq_true] at hu2
+        simp [Decl.stops, Decl.error, Decl.undec, Decl.dec, Proc.stops, Proc.halts, Proc.ran, Proc.error,
+          hsp, hu2.1, hu2.2, resultsOfD]
+      · have hu' : (syncDec save text enc && p.decodeFails) = false := by simpa using hu
+        have hu3 : (!syncDec save text enc || !p.decodeFails) = true := by
+          cases hs : syncDec save text enc <;> cases hd : p.decodeFails <;> simp [hs, hd] at hu' ⊢
+        by_cases h : p.code ≠ 0
+        · cases save <;>
+            simp [Decl.stops, Decl.error, Decl.undec, Decl.dec, Proc.stops, Proc.halts, Proc.ran,
+              Proc.error, hsp, hu', hu3, h, resultsOfD]
+        · have hz : p.code = 0 := by omega
+          simp only [ranD] at ih
+          simp only [hu', h, if_false, Bool.false_eq_true]
+          rw [ih]
+          cases save <;>
+            simp [Decl.stops, Decl.undec, Decl.dec, Proc.stops, Proc.halts, Proc.ran, hsp, hu', hu3, hz,
+              resultsOfD]
 
 theorem takeThroughD_append (a b : List Decl) :
     takeThroughD (a ++ b) = match firstFailD a with
@@ -64,7 +90,7 @@ theorem takeThroughD_append (a b : List Decl) :
   | nil => simp [firstFailD]
   | cons d ds ih =>
     simp only [List.cons_append, takeThroughD, firstFailD]
-    by_cases h : d.proc.stops = true
+    by_cases h : d.stops = true
     · simp [h]
     · simp only [h, ih]
       cases firstFailD ds <;> simp
@@ -77,7 +103,7 @@ theorem firstFailD_append (a b : List Decl) :
   | nil => simp [firstFailD]
   | cons d ds ih =>
     simp only [List.cons_append, firstFailD]
-    by_cases h : d.proc.stops = true
+    by_cases h : d.stops = true
     · simp [h]
     · simp [h, ih]
 
@@ -86,20 +112,20 @@ theorem takeThroughD_of_none {a : List Decl} (h : firstFailD a = none) : takeThr
   | nil => rfl
   | cons d ds ih =>
     simp only [firstFailD] at h
-    by_cases hc : d.proc.stops = true
+    by_cases hc : d.stops = true
     · simp [hc] at h
     · simp only [hc] at h
       simp [takeThroughD, hc, ih h]
 
 theorem firstFailD_none_iff (ds : List Decl) :
-    firstFailD ds = none ↔ ∀ d ∈ ds, d.proc.stops = false := by
+    firstFailD ds = none ↔ ∀ d ∈ ds, d.stops = false := by
   induction ds with
   | nil => simp [firstFailD]
   | cons d ds ih =>
     simp only [firstFailD]
-    by_cases hc : d.proc.stops = true
+    by_cases hc : d.stops = true
     · simp [hc]
-    · have hz : d.proc.stops = false := by simpa using hc
+    · have hz : d.stops = false := by simpa using hc
       simp [ih, hz]
 
 theorem all_ran_of_none {a : List Decl} (h : firstFailD a = none) : a.filter (·.proc.ran) = a := by
@@ -107,8 +133,8 @@ theorem all_ran_of_none {a : List Decl} (h : firstFailD a = none) : a.filter (·
   intro d hd
   exact ran_of_not_stops ((firstFailD_none_iff a).mp h d hd)
 
-/-- Closed form of the whole step loop. -/
-theorem runCommands_closed (cs : List SCommand) :
+/-- Closed form of the whole step loop, when every command's output handles can be opened. -/
+theorem runCommands_closed (cs : List SCommand) (ho : ∀ c ∈ cs, c.redir.openError = none) :
     runCommands cs =
       { started := (ranD (declsOf cs)).map (·.proc.id),
         results := resultsOfD (takeThroughD (declsOf cs)),
@@ -117,33 +143,89 @@ theorem runCommands_closed (cs : List SCommand) :
   | nil => simp [runCommands, declsOf, ranD, takeThroughD, resultsOfD, firstFailD]
   | cons c cs ih =>
     unfold runCommands
-    have hc := runProcs_closed c.save c.text c.run
+    have hc := runProcs_closed c.save c.text c.enc c.run
     simp only [ranD] at hc
-    simp only [SCommand.exec, declsOf_cons, declsOfCmd, ranD]
+    simp only [SCommand.exec, ho c (by simp), declsOf_cons, declsOfCmd, ranD]
     rw [hc, takeThroughD_append, firstFailD_append]
-    cases hf : firstFailD (c.run.map fun p => (⟨p, c.save, c.text⟩ : Decl)) with
+    cases hf : firstFailD (c.run.map fun p => (⟨p, c.save, c.text, c.enc⟩ : Decl)) with
     | some e => simp
     | none =>
-      simp only [ih]
+      simp only [ih (fun c' hc' => ho c' (by simp [hc']))]
       rw [takeThroughD_of_none hf]
       simp [resultsOfD_append, ranD, all_ran_of_none hf]
+
+theorem runCommands_cons (c : SCommand) (cs : List SCommand) :
+    runCommands (c :: cs) = match c.exec.err with
+      | some _ => c.exec
+      | none => { started := c.exec.started ++ (runCommands cs).started,
+                  results := c.exec.results ++ (runCommands cs).results, err := (runCommands cs).err } := rfl
+
+/-- The loop over a concatenation: the second part is reached only when the first had no error. -/
+theorem runCommands_append (a b : List SCommand) :
+    runCommands (a ++ b) = match (runCommands a).err with
+      | some _ => runCommands a
+      | none => { started := (runCommands a).started ++ (runCommands b).started,
+                  results := (runCommands a).results ++ (runCommands b).results,
+                  err := (runCommands b).err } := by
+  induction a with
+  | nil => simp [runCommands]
+  | cons c cs ih =>
+    simp only [List.cons_append, runCommands_cons]
+    cases hc : c.exec.err with
+    | some e => simp [hc]
+    | none =>
+      simp only [ih]
+      cases hr : (runCommands cs).err <;> simp [hc, hr]
+
+/-- `splitAtOpenFail`: the commands before the first one whose handles cannot be opened all can. -/
+theorem splitAtOpenFail_spec (cs : List SCommand) :
+    (∀ c ∈ (splitAtOpenFail cs).1, c.redir.openError = none) ∧
+    match (splitAtOpenFail cs).2 with
+    | none => cs = (splitAtOpenFail cs).1
+    | some (e, rest) => ∃ c, c.redir.openError = some e ∧ cs = (splitAtOpenFail cs).1 ++ c :: rest := by
+  induction cs with
+  | nil => simp [splitAtOpenFail]
+  | cons c cs ih =>
+    unfold splitAtOpenFail
+    cases hc : c.redir.openError with
+    | some e => exact ⟨by simp, c, hc, by simp⟩
+    | none =>
+      simp only []
+      refine ⟨?_, ?_⟩
+      · intro c' hc'
+        simp only [List.mem_cons] at hc'
+        cases hc' with
+        | inl h => rw [h]; exact hc
+        | inr h => exact ih.1 c' h
+      · cases hs : (splitAtOpenFail cs).2 with
+        | none =>
+          have := ih.2
+          rw [hs] at this
+          simp only []
+          rw [← this]
+        | some er =>
+          obtain ⟨e, rest⟩ := er
+          have := ih.2
+          rw [hs] at this
+          obtain ⟨c', h1, h2⟩ := this
+          exact ⟨c', h1, by simp only [List.cons_append]; rw [← h2]⟩
 
 /-- `takeThroughD` really is "prefix up to and including the first one that stops". -/
 theorem takeThroughD_split (ds : List Decl) :
     ∃ rest, ds = takeThroughD ds ++ rest ∧
       match firstFailD ds with
-      | none => rest = [] ∧ ∀ d ∈ takeThroughD ds, d.proc.stops = false
-      | some e => ∃ init d, takeThroughD ds = init ++ [d] ∧ (∀ x ∈ init, x.proc.stops = false) ∧
-          d.proc.stops = true ∧ e = d.proc.error := by
+      | none => rest = [] ∧ ∀ d ∈ takeThroughD ds, d.stops = false
+      | some e => ∃ init d, takeThroughD ds = init ++ [d] ∧ (∀ x ∈ init, x.stops = false) ∧
+          d.stops = true ∧ e = d.error := by
   induction ds with
   | nil => exact ⟨[], rfl, by simp [firstFailD, takeThroughD]⟩
   | cons d ds ih =>
     obtain ⟨rest, hsplit, hrest⟩ := ih
-    by_cases hc : d.proc.stops = true
+    by_cases hc : d.stops = true
     · refine ⟨ds, by simp [takeThroughD, hc], ?_⟩
       simp only [firstFailD, takeThroughD, if_pos hc]
       exact ⟨[], d, rfl, by simp, hc, rfl⟩
-    · have hz : d.proc.stops = false := by simpa using hc
+    · have hz : d.stops = false := by simpa using hc
       refine ⟨rest, ?_, ?_⟩
       · simp only [takeThroughD, if_neg hc, List.cons_append]
         rw [← hsplit]
@@ -165,22 +247,28 @@ theorem takeThroughD_split (ds : List Decl) :
           | head => exact hz
           | tail _ hx => exact h2 x hx
 
-theorem filter_ran_of_not_stops {init : List Decl} (h : ∀ x ∈ init, x.proc.stops = false) :
+theorem filter_ran_of_not_stops {init : List Decl} (h : ∀ x ∈ init, x.stops = false) :
     init.filter (·.proc.ran) = init :=
   List.filter_eq_self.mpr (fun x hx => ran_of_not_stops (h x hx))
 
 /-- The commands actually run, in the vocabulary of the property: a declaration prefix `pre` all of
-    whose processes existed; then either nothing is left and all exited 0, or the last of `pre` exited
-    non-zero (positive or negative) and is the error, or all of `pre` exited 0 and the *next*
-    declaration could not be started and is the error. -/
+    whose processes existed; then exactly one of: nothing is left and all exited 0 with decodable
+    output; the last of `pre` exited non-zero (positive or negative), its output decodable, and is the
+    error; the last of `pre` *ran* but its captured output cannot be decoded, and the error is that
+    (whatever its exit status); all of `pre` exited 0 and the *next* declaration could not be started and
+    is the error. -/
 theorem ranD_split (ds : List Decl) :
     ∃ rest, ds = ranD ds ++ rest ∧ (∀ d ∈ ranD ds, d.proc.spawn = none) ∧
       match firstFailD ds with
-      | none => rest = [] ∧ ∀ d ∈ ranD ds, d.proc.code = 0
-      | some (.exit i c) => ∃ init d, ranD ds = init ++ [d] ∧ (∀ x ∈ init, x.proc.code = 0) ∧
-          d.proc.code ≠ 0 ∧ i = d.proc.id ∧ c = d.proc.code
-      | some (.spawn i k) => (∀ d ∈ ranD ds, d.proc.code = 0) ∧
-          ∃ d rest', rest = d :: rest' ∧ d.proc.spawn = some k ∧ i = d.proc.id := by
+      | none => rest = [] ∧ ∀ d ∈ ranD ds, d.proc.code = 0 ∧ d.undec = false
+      | some (.exit i c) => ∃ init d, ranD ds = init ++ [d] ∧
+          (∀ x ∈ init, x.proc.code = 0 ∧ x.undec = false) ∧
+          d.proc.code ≠ 0 ∧ d.undec = false ∧ i = d.proc.id ∧ c = d.proc.code
+      | some (.decode i) => ∃ init d, ranD ds = init ++ [d] ∧
+          (∀ x ∈ init, x.proc.code = 0 ∧ x.undec = false) ∧ d.undec = true ∧ i = d.proc.id
+      | some (.spawn i k) => (∀ d ∈ ranD ds, d.proc.code = 0 ∧ d.undec = false) ∧
+          ∃ d rest', rest = d :: rest' ∧ d.proc.spawn = some k ∧ i = d.proc.id
+      | some (.openOut _ _) => False := by
   obtain ⟨rest, h1, h2⟩ := takeThroughD_split ds
   have hran : ∀ d ∈ ranD ds, d.proc.spawn = none := by
     intro d hd
@@ -189,40 +277,50 @@ theorem ranD_split (ds : List Decl) :
   cases hf : firstFailD ds with
   | none =>
     rw [hf] at h2
-    have h2' : rest = [] ∧ ∀ d ∈ takeThroughD ds, d.proc.stops = false := h2
+    have h2' : rest = [] ∧ ∀ d ∈ takeThroughD ds, d.stops = false := h2
     have hr : ranD ds = takeThroughD ds := filter_ran_of_not_stops h2'.2
     refine ⟨rest, by rw [hr]; exact h1, hran, h2'.1, ?_⟩
     intro d hd
     rw [hr] at hd
-    exact ((stops_false_iff _).mp (h2'.2 d hd)).2
+    exact ((Decl.stops_false_iff _).mp (h2'.2 d hd)).2
   | some e =>
     rw [hf] at h2
     obtain ⟨init, d, h3, h4, h5, h6⟩ := h2
     have hinit : init.filter (·.proc.ran) = init := filter_ran_of_not_stops h4
+    have hin : ∀ x ∈ init, x.proc.code = 0 ∧ x.undec = false :=
+      fun x hx => ((Decl.stops_false_iff _).mp (h4 x hx)).2
     cases hsp : d.proc.spawn with
     | some k =>
       have hr : ranD ds = init := by
         unfold ranD
         rw [h3, List.filter_append, hinit]
         simp [Proc.ran, hsp]
-      have he : e = .spawn d.proc.id k := by simp [h6, Proc.error, hsp]
+      have he : e = .spawn d.proc.id k := by simp [h6, Decl.error, Proc.error, hsp]
       subst he
       refine ⟨d :: rest, ?_, hran, ?_, d, rest, rfl, hsp, rfl⟩
       · rw [hr]; rw [h1, h3]; simp
       · intro x hx
         rw [hr] at hx
-        exact ((stops_false_iff _).mp (h4 x hx)).2
+        exact hin x hx
     | none =>
       have hr : ranD ds = init ++ [d] := by
         unfold ranD
         rw [h3, List.filter_append, hinit]
         simp [Proc.ran, hsp]
-      have he : e = .exit d.proc.id d.proc.code := by simp [h6, Proc.error, hsp]
-      subst he
-      refine ⟨rest, by rw [hr, ← h3]; exact h1, hran, init, d, hr, ?_, ?_, rfl, rfl⟩
-      · intro x hx
-        exact ((stops_false_iff _).mp (h4 x hx)).2
-      · have := (stops_true_iff _).mp h5
-        simpa [hsp] using this
+      have hsplit : ds = ranD ds ++ rest := by rw [hr, ← h3]; exact h1
+      by_cases hu : d.undec = true
+      · have he : e = .decode d.proc.id := by
+          have : (d.dec && d.proc.decodeFails) = true := hu
+          simp [h6, Decl.error, Proc.error, hsp, this]
+        subst he
+        exact ⟨rest, hsplit, hran, init, d, hr, hin, hu, rfl⟩
+      · have hu' : d.undec = false := by simpa using hu
+        have he : e = .exit d.proc.id d.proc.code := by
+          have : (d.dec && d.proc.decodeFails) = false := hu'
+          simp [h6, Decl.error, Proc.error, hsp, this]
+        subst he
+        refine ⟨rest, hsplit, hran, init, d, hr, hin, ?_, hu', rfl, rfl⟩
+        have := (Decl.stops_true_iff _).mp h5
+        simpa [hsp, hu'] using this
 
 end Pypyr.Cmd
